@@ -29,6 +29,9 @@ type C11Case struct {
 	Port    int    `json:"port,omitempty"`
 	TxID    string `json:"txid_hex,omitempty"`
 	Val     string `json:"value_hex,omitempty"` // raw attribute value / data / token
+	// After: a further occurrence of the same attribute later in the message (a request may name
+	// several peers); decoding reads the first occurrence and must judge that one
+	After string `json:"after_hex,omitempty"`
 }
 
 func synthPayload(n int, seed uint64) []byte {
@@ -246,9 +249,12 @@ func libEncode(id [12]byte, s stun.Setter, typ uint16) ([]byte, string) {
 }
 
 // libDecodeMsg wraps a raw attribute value in a reference-built message and decodes the envelope.
-func libDecodeMsg(id [12]byte, typ uint16, val []byte) (*stun.Message, error) {
+func libDecodeMsg(id [12]byte, typ uint16, val []byte, after ...[]byte) (*stun.Message, error) {
 	rm := &ref.Msg{Method: ref.MethodAllocate, Class: ref.ClassRequest, TxID: id}
 	rm.Add(typ, val)
+	for _, a := range after {
+		rm.Add(typ, a)
+	}
 	m := &stun.Message{Raw: rm.Encode()}
 	if err := m.Decode(); err != nil {
 		return nil, err
@@ -569,7 +575,12 @@ func attrRaw(c *C11Case) (string, string) {
 	}
 	id := txidOf(c)
 	val, _ := hex.DecodeString(c.Val)
-	m, err := libDecodeMsg(id, sp.typ, val)
+	var after [][]byte
+	if c.After != "" {
+		a, _ := hex.DecodeString(c.After)
+		after = append(after, a)
+	}
+	m, err := libDecodeMsg(id, sp.typ, val, after...)
 	if err != nil {
 		return "attr-envelope", fmt.Sprintf("%s: well-formed envelope with a %d-byte value rejected: %v", c.Attr, len(val), err)
 	}
@@ -634,7 +645,7 @@ func attrRaw(c *C11Case) (string, string) {
 func hashC11(c *C11Case) uint64 {
 	return vkit.Mix(vkit.MixBytes([]byte(c.Kind)), uint64(c.Number), vkit.MixBytes([]byte(c.Payload)), uint64(c.PayLen), c.PaySeed,
 		vkit.MixBytes([]byte(c.Raw)), vkit.MixBytes([]byte(c.Attr)), c.U, vkit.MixBytes([]byte(c.IP)), uint64(c.Port),
-		vkit.MixBytes([]byte(c.TxID)), vkit.MixBytes([]byte(c.Val)))
+		vkit.MixBytes([]byte(c.TxID)), vkit.MixBytes([]byte(c.Val)), vkit.MixBytes([]byte(c.After)))
 }
 
 func c11Report(r *vkit.Run, c *C11Case) bool {
@@ -781,6 +792,21 @@ func genC11(rt *rapid.T) *C11Case {
 			v[1] = byte(rapid.IntRange(0, 3).Draw(rt, "fam"))
 		}
 		c.Val = hex.EncodeToString(v)
+		if rapid.IntRange(0, 3).Draw(rt, "second") == 0 {
+			// a second, well-formed occurrence of the attribute behind the one under test
+			switch {
+			case sp.size == -2:
+				a := rapid.SliceOfN(rapid.Byte(), 8, 8).Draw(rt, "after")
+				a[0], a[1] = 0, 1
+				if rapid.Bool().Draw(rt, "after6") {
+					a = append(a, rapid.SliceOfN(rapid.Byte(), 12, 12).Draw(rt, "after6b")...)
+					a[1] = 2
+				}
+				c.After = hex.EncodeToString(a)
+			case sp.size > 0:
+				c.After = hex.EncodeToString(rapid.SliceOfN(rapid.Byte(), sp.size, sp.size).Draw(rt, "afterN"))
+			}
+		}
 	}
 
 	return c
@@ -885,6 +911,14 @@ func TestC11(t *testing.T) { //nolint:cyclop,gocyclo
 					}
 					if !c11Report(r, &C11Case{Kind: "attr-raw", Attr: sp.name, Val: hex.EncodeToString(v), TxID: "a1a2a3a4a5a6a7a8a9aaabac"}) {
 						ok = false
+					}
+					if sp.size == -2 && ok {
+						// the same value followed by a well-formed IPv4 / IPv6 occurrence
+						for _, after := range []string{"0001a1b2c3d4e5f6", "0002a1b2c3d4e5f60718293a4b5c6d7e8f90a1b2"} {
+							if !c11Report(r, &C11Case{Kind: "attr-raw", Attr: sp.name, Val: hex.EncodeToString(v), After: after, TxID: "a1a2a3a4a5a6a7a8a9aaabac"}) {
+								ok = false
+							}
+						}
 					}
 				}
 			}
